@@ -132,6 +132,15 @@ Definition id_orders : orders := mkOrders (fun _ l => l) (fun m => m) (fun m => 
 (* the hash map [m] enumerated in the order in which the implementation listed its words *)
 Definition enum_like (vocab : list string) (m : vmap) : vmap :=
   flat_map (fun w => match vget w m with Some v => [(w, v)] | None => [] end) vocab.
-(* an orders value that replays an observed vocabulary order at place (4) *)
+Fixpoint nodup_b (l : list string) : bool :=
+  match l with [] => true | a :: r => (negb (mem a r) && nodup_b r)%bool end.
+(* is [vocab] a duplicate-free listing of exactly the words of [m] ? *)
+Definition lists_keys (vocab : list string) (m : vmap) : bool :=
+  (nodup_b vocab && Nat.eqb (List.length vocab) (List.length m) && forallb (fun w => mem w (keys m)) vocab)%bool.
+(* an orders value that replays an observed `vocabulary()` order at place (4): the map whose words are
+   exactly [vocab] is enumerated in that order, any other map as it comes - a fair enumeration for
+   every [vocab] ([observed_orders_fair]); a listing that is not a permutation of the fitted words
+   replays nothing and is reported as a correspondence mismatch by C20/Corr.v *)
 Definition observed_orders (vocab : list string) : orders :=
-  mkOrders (fun _ l => l) (fun m => m) (fun m => m) (enum_like vocab).
+  mkOrders (fun _ l => l) (fun m => m) (fun m => m)
+           (fun m => if lists_keys vocab m then enum_like vocab m else m).
